@@ -6,7 +6,7 @@ CONSTANTS
   MaxContent = 2
   MaxChunks = 3
   MaxChunk = 2
-  MaxRead = 2
+  ReadSizes = {0, 1, 2}
   MaxHist = 5
 CONSTRAINT Bound
 INVARIANTS StepsAllowed StateInv
